@@ -3,6 +3,7 @@ import Proofs.C01Monitor
 import Proofs.C01Rx
 import Proofs.C01Own
 import Proofs.C01Refine
+import Proofs.C01Pool
 /-!
 # C01 — every response reaches the request that caused it, and only that one (property theorems)
 
@@ -471,5 +472,54 @@ example : MuxOwn.trAll (MuxOwn.init 128) refineHistory =
 
 example : MuxOwn.otrace .code (MuxOwn.init 128) refineHistory =
     [.req 1 1, .resp 1 1 0 11, .got 1 0 11, .req 1 2, .resp 1 2 0 22, .stray 99] := by decide
+
+/-! ## Call objects as entities; a pool of them (`Model/MuxPool.lean`, round 8)
+
+closeWithError walks a snapshot of POINTERS to call objects and sends the connection's error to whoever reads the channel
+of each. The code that exists allocates a fresh call object per request (`Policy.never`). -/
+
+/-- for the code that exists AND for a pool that takes an object back only when no `c.calls` map and no closeWithError
+    snapshot refers to it: over all connections, all interleavings of requests starting, being answered, leaving early,
+    connections closing and closeWithError getting round to each object - the error of connection `k` is only ever
+    handed to a request of connection `k` -/
+theorem C01_recycling_safe (p : MuxPool.Policy) (hp : p ≠ .onRelease) (as : List MuxPool.Act) (st : MuxPool.St)
+    (h : MuxPool.run p MuxPool.init as = some st) (r k : Nat) (hd : st.pc r = .done (.connErr k)) : st.conn r = k :=
+  (MuxPool.inv_run p hp as _ st MuxPool.inv_init h).err_ok r k hd
+
+/-- the invariant that makes it safe: an object that a `c.calls` map or a snapshot refers to is not in the pool, and
+    whoever reads its channel is a request of that very connection -/
+theorem C01_referenced_object_not_pooled (p : MuxPool.Policy) (hp : p ≠ .onRelease) (as : List MuxPool.Act) (st : MuxPool.St)
+    (h : MuxPool.run p MuxPool.init as = some st) (o k : Nat) (hr : st.inCalls o = some k ∨ st.inWalk o = some k) :
+    st.pool o = false ∧ ∀ r, st.user o = some r → st.conn r = k := by
+  have inv := MuxPool.inv_run p hp as _ st MuxPool.inv_init h
+  rcases hr with hr | hr
+  · exact ⟨(inv.calls_ok o k hr).1, (inv.calls_ok o k hr).2.2.2⟩
+  · exact ⟨(inv.walk_ok o k hr).1, (inv.walk_ok o k hr).2.2⟩
+
+/-- Counterexample for the pool that takes an object back whenever its stream is released (seeded change C01-7):
+    connection 1 closes while requests 1 and 2 are inside exec; request 2 leaves through the nothing-written exit and puts
+    object 1 back although closeWithError's snapshot still holds it; request 3 on CONNECTION 2 is given object 1; when
+    closeWithError(1) gets to object 1, request 3 is handed the error of connection 1.
+    Replay: `ds 2 0 !q5 q5 z c2 @2 q5 w1 …`. -/
+theorem C01_cex_recycle_on_release :
+    ∃ st, MuxPool.run .onRelease MuxPool.init
+        [.start 1 1 0, .start 2 1 1, .close 1, .leave 2, .start 3 2 1, .visit 1 1] = some st ∧
+      st.pc 3 = .done (.connErr 1) ∧ st.conn 3 = 2 := by
+  refine ⟨_, rfl, ?_, ?_⟩ <;> decide
+
+/-- non-vacuity: the safe pool does recycle (object 0 serves request 1 on connection 1, then request 2 on connection
+    2), refuses the put-back of the history above (request 3 cannot be given object 1), and the error of connection 1
+    reaches request 1 -/
+example : ∃ st, MuxPool.run .whenUnreferenced MuxPool.init
+    [.start 1 1 0, .respond 1, .start 2 2 0, .respond 2] = some st ∧ st.pc 2 = .done .own ∧ st.pool 0 = true := by
+  refine ⟨_, rfl, ?_, ?_⟩ <;> decide
+
+example : (MuxPool.run .whenUnreferenced MuxPool.init
+    [.start 1 1 0, .start 2 1 1, .close 1, .leave 2, .start 3 2 1]).isNone = true := by decide
+
+example : ∃ st, MuxPool.run .never MuxPool.init
+    [.start 1 1 0, .start 2 1 1, .close 1, .leave 2, .start 3 2 2, .visit 1 1, .visit 1 0, .respond 3] = some st ∧
+    st.pc 1 = .done (.connErr 1) ∧ st.pc 2 = .done .ctx ∧ st.pc 3 = .done .own := by
+  refine ⟨_, rfl, ?_, ?_, ?_⟩ <;> decide
 
 end C01
